@@ -8,7 +8,7 @@ from .refs import pep440 as P
 from .refs import semver as S
 
 DIRT_KINDS = ["clean", "modified", "staged_new", "untracked", "ignored_only", "deleted", "staged_modified", "staged_then_reverted", "staged_new_then_deleted",
-              "untracked_in_subdir", "touched_same_content", "mode_change"]
+              "untracked_in_subdir", "touched_same_content", "mode_change", "unmerged"]
 
 
 class GitError(Exception):
@@ -300,6 +300,17 @@ class Repo:
             # content untouched, executable bit flipped: git status reports ` M` (core.fileMode is on for a Linux work tree)
             fp = os.path.join(p, "tracked.txt")
             os.chmod(fp, os.stat(fp).st_mode ^ 0o111)
+            return True
+        if kind == "unmerged":
+            # the index as a stopped merge / rebase / cherry-pick / stash pop leaves it: stages 1-3 for a tracked path, conflict markers in the file
+            blobs = []
+            for txt in ("base\n", "base\nours\n", "base\ntheirs\n"):
+                r = subprocess.run([core.REAL_GIT, "hash-object", "-w", "--stdin"], cwd=p, env=self.env, input=txt, capture_output=True, text=True, check=True)
+                blobs.append(r.stdout.strip())
+            info = "0 0000000000000000000000000000000000000000\ttracked.txt\n" + "".join("100644 %s %d\ttracked.txt\n" % (b, i + 1) for i, b in enumerate(blobs))
+            subprocess.run([core.REAL_GIT, "update-index", "--index-info"], cwd=p, env=self.env, input=info, capture_output=True, text=True, check=True)
+            with open(os.path.join(p, "tracked.txt"), "w") as f:
+                f.write("base\n<<<<<<< ours\nours\n=======\ntheirs\n>>>>>>> theirs\n")
             return True
         if kind == "submodule_modified":
             # a tracked file edited inside a checked-out submodule: the super-project's status reports ` M lib`
